@@ -873,15 +873,16 @@ theorem propNames_cover {κ : Type} (data : List (κ × Attrs)) :
 
 /-- documented domain of an attribute graph held by networkx: ids are integers in `[0, 2^64)`,
 no edge twice (a networkx graph is simple; in either orientation when undirected), and every
-property is *regular*: its present values are all scalars, or all lists of one shape, with leaves
-of one class (bool | integers fitting int64 | integers fitting uint64 | float | str) -/
+property is in `PropDomain` on the elements that have it: *regular* (all scalars, or all lists of
+one shape, leaves of one class bool | integers fitting int64 | integers fitting uint64 | float | str)
+or *ragged* (lists of one rank and one class) -/
 structure NxDomain (G : NxGraph) : Prop where
   nodup : (G.nodes.map (·.1)).Nodup
   idRange : ∀ i ∈ G.nodes.map (·.1), 0 ≤ i ∧ i < two64
   endpoints : ∀ e ∈ G.edges.map (·.1), e.1 ∈ G.nodes.map (·.1) ∧ e.2 ∈ G.nodes.map (·.1)
   simple : (G.edges.map (·.1)).Pairwise (fun a b => sameEdge G.directed a b = false)
-  nodeProps : ∀ name, ∃ K sh, RegularVals K sh (present G.nodes name)
-  edgeProps : ∀ name, ∃ K sh, RegularVals K sh (present G.edges name)
+  nodeProps : ∀ name, PropDomain (present G.nodes name)
+  edgeProps : ∀ name, PropDomain (present G.edges name)
 
 /-- `NxBackend.write` on the documented domain: it succeeds, the in-memory geff is valid and denotes `G` -/
 theorem nxWrite_spec (G : NxGraph) (h : NxDomain G) :
